@@ -9,7 +9,8 @@ from vf.props.c02 import site_of
 
 PROPERTY = 'C06'
 RULE = ('cases = (statement text from the typed SQL model over schema t1..t4, table contents over tiny domains with '
-        'NULLs/duplicates/empty tables, target dialect in {sqlite, mysql, postgresql}); the original text and the '
+        'NULLs/duplicates/empty tables, target dialect in {sqlite, mysql, postgresql}; statements that put || next to arithmetic only for '
+        'sqlite, the rank of || being engine-specific); the original text and the '
         'rendering of its parsed tree are executed on two identical sqlite3 databases and compared (rows order-aware '
         'for queries, full table contents for DML/DDL); non-trivial = the query returns >= 1 row or the DML changes '
         'a table; distinct by (target, statement text, data)')
